@@ -50,7 +50,7 @@ Proof. split; vm_compute; reflexivity. Qed.
    cell for cell, the record of one write() call that completed (its even generation store is in
    the log).  Side condition: fewer than 32767 write() calls in the run, so that the 16-bit
    generation does not return to a value a reader may still hold (known finding C02-aba). *)
-From CB Require Import SeqlockInv SeqlockRA.
+From CB Require Import SeqlockInv GenCyc SeqlockRA.
 
 Theorem C02_RA : forall c ts m o, safe_cfg c = true -> Forall real_token ts ->
   m_run (m_init c) ts = (m, o) -> (Z.of_nat (m_nrec m) < 32767)%Z ->
@@ -72,10 +72,49 @@ Qed.
 
 (* one accepting step, in any state satisfying the invariants *)
 Theorem C02_accept_is_one_completed_write : forall c L r ch r' it,
-  safe_cfg c = true -> LogInv (c_cells c) L -> (Z.of_nat (evens L) < 32767)%Z -> RInv c L r ->
+  safe_cfg c = true -> LogInv (c_cells c) L -> GenCyc L -> window_ok L r -> RInv c L r ->
   r_step c L r ch = Some (r', it, Some RetFresh) ->
   exists a q e, (0 < a)%nat /\ ev L q = Some e /\ e_kind e = KEven /\ e_att e = a /\ r_cache r' = rec_of (c_cells c) a.
 Proof. exact r_step_accept. Qed.
+
+(* ---------------------------------------------------------------------------------------------
+   Runs of any length.  The bound "fewer than 32767 write() calls in the run" of C02_RA is replaced
+   by the window condition [run_windows]: at every point of the schedule, every reader that is
+   inside an iteration of snapshot() started that iteration from a generation store that fewer
+   than 32767 completed publications have followed.  The daemon may publish for ever and the
+   16-bit generation may wrap any number of times.  This is the exact complement of the known
+   finding C02-aba (C02_aba_witness: a reader suspended inside one iteration for 32767
+   publications accepts a mixture). *)
+Theorem C02_RA_window : forall c ts m o, safe_cfg c = true -> Forall real_token ts ->
+  m_run (m_init c) ts = (m, o) -> run_windows (m_init c) ts ->
+  forall j ret rec, In (ORet j ret rec) o -> ret <> RetErr ->
+    rec = repeat 0%Z (c_cells c) \/ published c (w_log (m_w m)) rec.
+Proof.
+  intros c ts m o Hs Hts R Hw j ret rec Hin Hne.
+  destruct (m_run_inv_win c Hs ts (m_init c) m o (MInv_init c) Hts R Hw) as (_ & _ & H).
+  exact (H j ret rec Hin Hne).
+Qed.
+
+(* C02_RA is the special case: short runs satisfy the window condition *)
+Theorem C02_short_runs_have_short_windows : forall c ts m o, safe_cfg c = true -> Forall real_token ts ->
+  m_run (m_init c) ts = (m, o) -> (Z.of_nat (m_nrec m) < 32767)%Z -> run_windows (m_init c) ts.
+Proof. intros c ts m o Hs Hts R Hn. exact (run_windows_of_nowrap c Hs ts (m_init c) m o (MInv_init c) Hts R Hn). Qed.
+
+(* the generation values along every log, with no bound: the k-th completed publication stores
+   gv k = 2 * ((k - 1) mod 32767) + 2, and within a window of fewer than 32767 publications these
+   values are pairwise different *)
+Theorem C02_generation_cycle : forall c ts m o, safe_cfg c = true -> Forall real_token ts ->
+  m_run (m_init c) ts = (m, o) -> run_windows (m_init c) ts ->
+  forall p e, ev (w_log (m_w m)) p = Some e -> e_kind e = KEven -> e_val e = gv (evens_upto (w_log (m_w m)) p).
+Proof.
+  intros c ts m o Hs Hts R Hw.
+  destruct (m_run_inv_win c Hs ts (m_init c) m o (MInv_init c) Hts R Hw) as (I & _).
+  exact (GC_even _ (W4_log _ (M_gen _ _ I))).
+Qed.
+
+Theorem C02_window_values_distinct : forall k1 k2, (0 < k1)%nat -> (k1 <= k2)%nat ->
+  (Z.of_nat k2 < Z.of_nat k1 + 32767)%Z -> gv k1 = gv k2 -> k1 = k2.
+Proof. exact gv_inj_window. Qed.
 
 (* non-vacuity: the configuration measured from the code is safe, and a run with crashes, restarts
    and two readers returns records 1 and 3 *)
